@@ -1087,11 +1087,12 @@ def pred_d41(fn: ast.FunctionDef) -> bool:
     return bool(attrs) and all(d is not None for _, d in attrs)
 
 
-PREDICATES = {"C01-D24": pred_d24, "C01-D28": pred_d28, "C01-D36": pred_d36, "C01-D41": pred_d41}
+PREDICATES = {"C01-D24": pred_d24, "C01-D28": pred_d28, "C01-D36": pred_d36}
 # a predicate that only explains failures of a particular kind (substring of the failure text)
-FAILURE_FILTER = {"C01-D41": ("model fails", "model differs", "ModelProto", "to_model_proto", "main graph")}
+FAILURE_FILTER: dict = {}
 FIXED_PREDICATES = {"C01-D23": pred_d23, "C01-D25": pred_d25, "C01-D26": pred_d26, "C01-D30": pred_d30,
-                    "C01-D27": pred_d27, "C01-D29": pred_d29, "C01-D37": pred_d37, "C01-D39": pred_d39}
+                    "C01-D27": pred_d27, "C01-D29": pred_d29, "C01-D37": pred_d37, "C01-D39": pred_d39,
+                    "C01-D41": pred_d41}
 # regions the converter REFUSES since 9b326d7 / 9f69276 / fc696f7 (formerly findings C01-D31 / C01-D33 / C01-D38): the
 # generator of accepted programs stays out of them; they are exercised as near-miss kinds (`loop-var-read-after-loop`,
 # `return-not-last`, `loop-without-state`) and by the corpus witnesses w_d31 / w_d33 / w_d38
